@@ -47,6 +47,9 @@ def strat_perm(tier):
         "meth": st.sampled_from([0, 1]), "radial": st.booleans(),
         "perms": st.lists(st.permutations(list(range(6))), min_size=6, max_size=6),
         "op": st.sampled_from(["permute", "permute", "rotate"]), "angle": st.floats(0, 2 * math.pi),
+        # symmetric arrangement: the first sphere sits exactly (in floating point) at the mean of all centres, the
+        # others in +-v pairs around it (collinear triple, centred rhombus)
+        "sym": st.sampled_from([False, False, False, True]),
     })
 
 
@@ -57,12 +60,32 @@ def run_perm(case):
     unit = o["wl"] / o["nm"]
     sc = {"kind": "cluster", "mem": case["mem"], "pl": case["pl"], "th": {"t": "ms", "meth": case["meth"], "radial": case["radial"], "tight": True}}
     s, _, info = gen.build_scene(sc, o, det)
+    if case.get("sym") and len(s.scatterers) >= 3:
+        q = 2.0 ** -8
+        mem = list(s.scatterers)
+        if len(mem) % 2 == 0:
+            mem = mem[:-1]
+        c0 = np.round(np.array(mem[0].center, dtype=float) / q) * q
+        r0 = float(mem[0].r)
+        placed = [Sphere(n=mem[0].n, r=mem[0].r, center=tuple(c0))]
+        dirs = [np.array([1.0, 0.0, 0.0]), np.array([0.0, 1.0, 0.0])]
+        for j in range((len(mem) - 1) // 2):
+            a_, b_ = mem[1 + 2 * j], mem[2 + 2 * j]
+            rr = max(float(a_.r), float(b_.r))
+            dist = math.ceil(1.3 * (r0 + rr) / q) * q
+            v = dirs[j % 2] * dist * (1 + j // 2)
+            placed.append(Sphere(n=a_.n, r=rr, center=tuple(c0 + v)))
+            placed.append(Sphere(n=b_.n, r=rr, center=tuple(c0 - v)))
+        s = Spheres(placed, warn=False)
+        assert np.array_equal(np.array([p_.center for p_ in placed]).mean(0), c0)
     th = Multisphere(meth=case["meth"], compute_escat_radial=case["radial"], **TIGHT)
     P = gen.detector_points_xyz(det, unit)
     d = hp.detector_points(x=P[:, 0], y=P[:, 1], z=P[:, 2])
     kw = gen.optics_kwargs(o)
     k = len(s.scatterers)
     labels = ["k%d" % k, "meth%d" % case["meth"], case["op"], "absorbing" if any(m["m"][1] > 0 for m in case["mem"]) else "real"]
+    if case.get("sym") and k >= 3:
+        labels.append("sphere_exactly_at_centroid")
     try:
         base = calc_field(d, s, theory=th, **kw).values
     except Exception as e:
